@@ -15,6 +15,7 @@ pub mod c13;
 pub mod c14;
 pub mod c16;
 pub mod c17;
+pub mod c18;
 pub mod c19;
 
 pub fn run(ctx: &Ctx, st: &mut Stats) -> bool {
@@ -33,6 +34,7 @@ pub fn run(ctx: &Ctx, st: &mut Stats) -> bool {
         "C14" => c14::run(ctx, st),
         "C16" => c16::run(ctx, st),
         "C17" => c17::run(ctx, st),
+        "C18" => c18::run(ctx, st),
         "C19" => c19::run(ctx, st),
         _ => return false,
     }
@@ -55,6 +57,7 @@ pub fn replay(prop: &str, case: &Value, st: &mut Stats) -> bool {
         "C14" => c14::replay(case, st),
         "C16" => c16::replay(case, st),
         "C17" => c17::replay(case, st),
+        "C18" => c18::replay(case, st),
         "C19" => c19::replay(case, st),
         _ => false,
     }
